@@ -34,13 +34,21 @@ LEVEL_TEXT = ("Theorems over heaps of any size and shape (cyclic, dangling, self
               "comparing, operation by operation, unresolved sets, iteration counts, per-alias links, flags and dereference outcomes "
               "(incl. which alias an AliasResolutionError names), on trees as load() leaves them and on pristine trees (nothing "
               "dereferenced yet); the static walk over the initial heap is compared with the dereference outcomes after resolution; "
-              "the known-gap attribution of every partial chain is computed by the extracted model (link_verdict).")
+              "the known-gap attribution of every partial chain is computed by the extracted model (link_verdict). Wave 2: the outer loop of "
+              "resolve_aliases WITH side-loading is proved, for every abstract world / pass / measure satisfying four stated hypotheses "
+              "(progress uses up a finite measure, a quiet pass changes nothing, loads are reported as unresolved, a settled pass stays "
+              "settled), to end within measure+2 passes on a fixpoint that a second call reproduces in <= 2 iterations; every observed "
+              "resolve_aliases() of the side-loading streams is replayed through the extracted loop. implicit=False is covered by the "
+              "theorems: raising the skip bit on any set of aliases (mark_skip, applied by the extracted model) preserves every "
+              "hypothesis, and the fixpoint theorem is stated with it.")
 LEVEL_NOTE = ("Modelled and verified: dereferencing/resolution (models.py Alias.*, mixins.py get_member) and resolve_module_aliases / "
               "resolve_aliases with implicit=True, external=False, as repaired by the fix commits for C06-F1, F2, F4, F5. NOT modelled: "
               "load(), expand_exports, expand_wildcards (any exception leaving them is a violation; the heap handed to the model is "
               "abstracted after wildcard expansion has stabilised, graphs where it does not are only evaluated directly; whether the "
               "second resolve_aliases leaves the whole tree unchanged is evaluated directly) and side-loading during resolution "
-              "(external != False: termination, error discipline and the fixpoint over three calls are evaluated directly on the "
+              "(external != False: only the outer loop is modelled, over an abstract pass - C06_side_loading_loop; its hypotheses (1)-(3) are "
+              "read off the code and checked on every observed pass, (4) is proved for external=False on direct heaps and otherwise "
+              "evaluated; error discipline and the fixpoint over three calls are evaluated directly on the "
               "implementation, with and without wildcard imports between the packages). C06_fixpoint_direct_heaps needs direct, "
               "chains_complete and unique_paths; C06_fixpoint_partial (all heaps) is conditional on a quiet pass; the unconditional "
               "statement is checked at run time on every explored heap, model and implementation. Known: C06-F3 (wildcard-expanded "
@@ -50,7 +58,7 @@ LEVEL_NOTE = ("Modelled and verified: dereferencing/resolution (models.py Alias.
               "Trusted: Coq kernel, extraction, the tree->heap abstraction (Snapshot), the comparison code and the trace-based "
               "classifiers of F6/F7/F8 in this module.")
 MODEL = ("Model.C06_alias", "run_C06")
-COQ_TARGETS = ["Proofs/C06_alias.vo", "Proofs/C06_fixpoint.vo"]
+COQ_TARGETS = ["Proofs/C06_alias.vo", "Proofs/C06_fixpoint.vo", "Proofs/C06_sideload.vo"]
 RULE = ("import graphs written as packages under the scratch directory and loaded with GriffeLoader(allow_inspection=False): "
         "(1) every assignment of {nothing, def, from T import n [as name]} to the (module,name) slots of 2 modules x 2 names, T over modules + "
         "missing module (4096 graphs; quick: seeded sample) and the same with a module alias p.m to walk through (10^4; quick: sample); "
@@ -180,6 +188,7 @@ class Snapshot:
         self.Alias = Alias
         self.Kind = Kind
         self.pending = []
+        self.skip = []
         self.collection = [[name, self.add(m)] for name, m in loader.modules_collection.members.items()]
         while self.pending:
             i = self.pending.pop()
@@ -194,8 +203,11 @@ class Snapshot:
         self.nodes.append(None)
         self.objs.append(o)
         if o.is_alias:
+            wild = o.name.endswith("/*")
             self.nodes[i] = ["alias", o.path, o.target_path.split("."), None, bool(o._passed_through),
-                             o.name.endswith("/*") or (not self.implicit and not self.exported(o))]
+                             wild or (not self.implicit and not self.exported(o))]
+            if self.nodes[i][5] and not wild:
+                self.skip.append(i)                     # implicit=False: not exported (the model raises the bit itself: mark_skip)
             self.pending.append(i)
         else:
             self.nodes[i] = ["obj", o.path, o.kind in (self.Kind.MODULE, self.Kind.CLASS), None]
@@ -232,7 +244,9 @@ class Snapshot:
         return [[self.nodes[i][1], self.describe_target(self.objs[i]), bool(self.objs[i]._passed_through)] for i in self.alias_ids()]
 
     def term(self):
-        return [self.collection, self.nodes]
+        """[collection, nodes with the wild bit as the visitor set it, ids the model has to skip (mark_skip)]"""
+        skip = set(self.skip)
+        return [self.collection, [n[:5] + [False] if k in skip else n for k, n in enumerate(self.nodes)], sorted(skip)]
 
 
 def deref(o):
@@ -769,7 +783,7 @@ def run_batch(ctx, batch, label, use_model=True, pristine_share=2, implicit_shar
         live.append((case, rec))
     if not live:
         return
-    outs = ctx.model([["run", r["heap"][0], r["heap"][1], list(r["ops"]) + ["verdicts"]] for _, r in live])
+    outs = ctx.model([["run", r["heap"][0], r["heap"][1], list(r["ops"]) + ["verdicts"], r["heap"][2]] for _, r in live])
     for (case, rec), mo in zip(live, outs):
         if not mo or mo[0] == "bad-input" or mo[0][0] != "class":
             ctx.tie_failure("correspondence", "model rejected the heap term", {"model": mo}, case)
@@ -960,6 +974,7 @@ class LoaderTrace:
 
     def __init__(self, loader):
         self.events = []                     # ("S"/"V", module[, n]) top-level resolve_module_aliases, ("L", package)
+        self.passes = []                     # per top-level resolve_module_aliases: (module, resolved any, unresolved, #packages before, after)
         self.stack = []                      # ("expand" | "resolve" | "load", path)
         self.reentered = []                  # paths whose members were being iterated when a nested expansion reached them
         self.orig = (loader.resolve_module_aliases, loader.load, loader.expand_wildcards)
@@ -969,12 +984,14 @@ class LoaderTrace:
             if seen is None:
                 self.events.append(("S", obj.path))
             self.stack.append(("resolve", obj.path))
+            before = len(loader.modules_collection.members)
             try:
                 res = orig_rma(obj, implicit=implicit, external=external, seen=seen, load_failures=load_failures)
             finally:
                 self.stack.pop()
             if seen is None:
                 self.events.append(("V", obj.path, len(res[0])))
+                self.passes.append((obj.path, bool(res[0]), sorted(res[1]), before, len(loader.modules_collection.members)))
             return res
 
         def load(*a, **k):
@@ -997,6 +1014,48 @@ class LoaderTrace:
                 self.stack.pop()
 
         loader.resolve_module_aliases, loader.load, loader.expand_wildcards = rma, load, expand
+
+
+def observe_loop(ctx, case, call, passes, first_module, unresolved, iterations):
+    """The outer loop of resolve_aliases under side-loading vs the model's ext_loop (C06_side_loading_loop): the
+    top-level resolve_module_aliases calls of one resolve_aliases() are cut into iterations (each starts at the first
+    module of the collection), every iteration gives (some alias resolved, unresolved set, collection grew during the
+    pass); the extracted loop replays them and must stop after the same number of iterations with the same set.
+    The hypotheses read off the code are checked on the way."""
+    its = []
+    for mod, rs, u, before, after in passes:
+        if mod == first_module or not its:
+            its.append([False, set(), before, after])
+        its[-1][0] = its[-1][0] or rs
+        its[-1][1] |= set(u)
+        its[-1][3] = after
+    obs = [[rs, sorted(u), after != before] for rs, u, before, after in its]
+    for a, b in zip(obs, obs[1:]):
+        if not a[0] and not a[2] and a[1] != b[1]:
+            ctx.tie_failure("correspondence", "side-loading loop hypothesis: a pass that neither resolves nor loads changes nothing",
+                            {"call": call + 1, "pass": a, "next": b}, case)
+    for a in obs:
+        if a[2] and not a[1]:
+            ctx.tie_failure("correspondence", "side-loading loop hypothesis: a package is only loaded for an alias reported unresolved",
+                            {"call": call + 1, "pass": a}, case)
+        ctx.observe("side_loading_pass(resolved,unresolved,grew)", f"{int(a[0])}{int(bool(a[1]))}{int(a[2])}")
+    if not hasattr(ctx, "_c06_loops"):
+        ctx._c06_loops = []
+    ctx._c06_loops.append((case, call, obs, unresolved, iterations))
+
+
+def flush_loops(ctx):
+    loops = getattr(ctx, "_c06_loops", [])
+    ctx._c06_loops = []
+    if not loops:
+        return
+    outs = ctx.model([["loop", obs] for _c, _k, obs, _u, _i in loops])
+    for (case, call, obs, unresolved, iterations), mo in zip(loops, outs):
+        ctx.count("side_loading_loops_compared")
+        ctx.observe("side_loading_iterations", min(iterations, 6))
+        if mo != ["loop", unresolved, iterations, 0]:
+            ctx.tie_failure("correspondence", "resolve_aliases outer loop under side-loading vs ext_loop (model)",
+                            {"call": call + 1, "passes": obs, "impl": [unresolved, iterations], "model": mo}, case)
 
 
 def run_external(ctx, files, loads, external, label, _retry=False, implicit=True):
@@ -1055,9 +1114,11 @@ def run_external(ctx, files, loads, external, label, _retry=False, implicit=True
     for k in range(3):
         if k == 1:
             first_trace = list(trace.events)
+        npass, first_module = len(trace.passes), next(iter(loader.modules_collection.members), None)
         r = guarded(lambda: loader.resolve_aliases(implicit=implicit, external=external))
         if r[0] != "ok":
             return escape(f"resolve_aliases call {k + 1} raised", r)
+        observe_loop(ctx, case, k, trace.passes[npass:], first_module, sorted(r[1][0]), r[1][1])
         if snap is None:
             snap = Snapshot(loader, implicit)                    # after the first call: includes what it side-loaded
         now = sorted(loader.modules_collection.members)
@@ -1233,12 +1294,13 @@ def explore(ctx):
         run_external(ctx, files, side_loads(rng, ext), ext, f"side-loading+wildcards(external={ext})", implicit=(k % 5 != 4))
         if len(ctx.prop_failures) >= 20:
             break
+    flush_loops(ctx)
     if not ctx.quick:
         sample = []
         for _ in range(40):
             rec = run_impl(random_graph(rng, MODS5, NAMES), ["p"], str(ctx.scratch / "pk"))
             if rec["heap"] is not None:
-                sample.append(["run", rec["heap"][0], rec["heap"][1], OPS])
+                sample.append(["run", rec["heap"][0], rec["heap"][1], OPS, rec["heap"][2]])
         ctx.cross_check_extraction(sample, n=30)
 
 
